@@ -108,7 +108,7 @@ def mandatory_bins(tier):
     b = ["small_curve", "pair_add", "pair_add_with_infinity", "pair_add_equal_operands", "pair_add_inverse_operands", "rep_unreduced_negative_y", "rep_scaled", "rep_same_z", "rep_different_z",
          "double", "negate", "scalar_mul_all_0_to_2n_plus_1", "scalar_mul_precompute_path", "scalar_mul_without_order", "mul_add", "affine_point_arithmetic", "neutral_element_and_reflected_operations", "mixed_jacobi_affine", "equality_across_representations",
          "anomalous_curve_n_eq_p", "long_lived_point_objects_reused_across_operations", "curve_a_zero", "curve_a_minus_3", "curve_p_1_mod_4",
-         "shipped_curve", "kG_vs_openssl", "kQ_vs_openssl", "mul_add_vs_openssl", "negation_scale_combination", "scalar_n", "scalar_n_plus_1", "scalar_2^k", "scalar_2^k-1", "ecdh_vs_openssl", "ecdh_edge_scalar", "ecdh_keys_loaded_as_bytes", "ecdh_keys_loaded_as_der", "ecdh_keys_loaded_as_pem", "ecdh_keys_loaded_as_object", "ecdh_generated_private_key", "ecdh_object_reused_with_keys_replaced_one_at_a_time", "ecdh_shared_point_with_x_zero",
+         "shipped_curve", "kG_vs_openssl", "kQ_vs_openssl", "mul_add_vs_openssl", "mul_add_both_operands_with_tables_multipliers_above_the_order", "mul_add_multipliers_far_above_the_order", "negation_scale_combination", "scalar_n", "scalar_n_plus_1", "scalar_2^k", "scalar_2^k-1", "ecdh_vs_openssl", "ecdh_edge_scalar", "ecdh_keys_loaded_as_bytes", "ecdh_keys_loaded_as_der", "ecdh_keys_loaded_as_pem", "ecdh_keys_loaded_as_object", "ecdh_generated_private_key", "ecdh_object_reused_with_keys_replaced_one_at_a_time", "ecdh_shared_point_with_x_zero",
          "invalid_off_curve", "invalid_coordinate_ge_p", "invalid_congruent_coordinate_ge_p", "invalid_zero_zero", "invalid_other_curve_point", "invalid_point_object_of_sibling_curve", "invalid_point_outside_prime_order_subgroup", "invalid_infinity", "repository_suite_under_group_law_monitor"]
     return b
 
@@ -267,7 +267,9 @@ def run_small(ns, ctx, spec):
             ctx.distinct(cid, "mul", i1)
         ctx.bin("scalar_mul_all_0_to_2n_plus_1")
         # ---- mul_add ------------------------------------------------------------------------------------------
-        ks = sorted({0, 1, 2, n - 1, n, n + 1, 3 % n, n - 3, 5 % n, n // 2})
+        # ... and multipliers far above the order (6n+1, 9n+2, n*n+3, 2^(bits+4)+1): a multiple of the order contributes nothing
+        ks = sorted({0, 1, 2, n - 1, n, n + 1, 3 % n, n - 3, 5 % n, n // 2, 6 * n + 1, 9 * n + 2, n * n + 3, (1 << (n.bit_length() + 4)) + 1})
+        ctx.bin("mul_add_multipliers_far_above_the_order")
         pts = els[1:]
         step = max(1, len(pts) // 6)
         for i1 in range(1, n, step):
@@ -398,6 +400,13 @@ def run_shipped(ns, ctx, spec):
         chk("mul_add_differs_from_openssl", as_group(PJ.from_affine(Qa).mul_add(k2, G, k1), INF, p), want, {"k1": k1, "k2": k2, "d": d, "swapped": True})
         ctx.bin("mul_add_vs_openssl")
         ctx.distinct(cv.name, "mul_add", k1, k2)
+        # both operands of the generator kind (each with its own multiplication table), multipliers far above the order
+        b1, b2 = rng.choice(((1 << (n.bit_length() + 4)) + rng.randrange(n), n * n + rng.randrange(n), 6 * n + rng.randrange(n))), rng.choice((9 * n + rng.randrange(n), (1 << (n.bit_length() + 5)) + 3, rng.randrange(n)))
+        if b1 % n and b2 % n:
+            Qg = PJ(cv.curve, qx, qy, 1, n, generator=True)
+            Gg = PJ(cv.curve, int(cv.generator.x()), int(cv.generator.y()), 1, n, generator=True)
+            chk("mul_add_differs_from_openssl:both_operands_with_tables_multipliers_above_the_order", as_group(Gg.mul_add(b1, Qg, b2), INF, p), ossl.point_mul(name, b1 % n, (qx, qy), b2 % n), {"k1": hex(b1), "k2": hex(b2), "d": d})
+            ctx.bin("mul_add_both_operands_with_tables_multipliers_above_the_order")
     # negation / scale combinations: representations the library itself produces
     two_g = ossl.point_mul(name, 2)
     minus_two_g = (two_g[0], (-two_g[1]) % p)
